@@ -271,6 +271,16 @@ def check_case(case, ev=None, scratch=None):
         procs.append(p7)
         p7.set_store(i2, dabs, case["cache"])
         check_loads(p7, "fresh process after the internal directory was moved (the second one deleted)", dict(it2.kept))
+        p7.close()
+        # every internal directory used so far is deleted: the data directory only holds dangling links; a brand new internal
+        # directory takes it over
+        shutil.rmtree(i2)
+        i4 = os.path.join(base, "int_third")
+        p8 = P(root_dir, cwd1, prog2)
+        procs.append(p8)
+        p8.set_store(i4, dabs, case["cache"])
+        check_eval(p8, "new internal directory after all earlier ones were deleted (the data directory holds dangling links)", exp2, False)
+        check_loads(p8, "new internal directory after all earlier ones were deleted (the data directory holds dangling links)", dict(it2.kept))
         if ev is not None:
             nt = case["iform"] != "abs" or case["dform"] != "abs" or bool(kept_names)
             ev.case({"iform": case["iform"], "dform": case["dform"], "cache": repr(case["cache"]), "edit": case["edit"],
